@@ -115,6 +115,7 @@ M("C05-R1-dispatch", "C05", [(U, "if field.contains_numeric() {\n            com
 M("C05-R1-cmp-skips-first", "C05", [(U, "for i in 0..(self.values.len().min(other.values.len())) {", "for i in 1..(self.values.len().min(other.values.len())) {")], ["C05-R1_cmp"])
 M("C05-R2-uid-not-numeric", "C05", [("src/field.rs", "            | Field::Uid | Field::Gid\n", "            | Field::Gid\n")], ["key-typing_Uid"])
 M("C05-R2-length-not-numeric", "C05", [(F, "            Function::Length\n                | Function::Random", "            Function::Random")], ["key-typing_function_Length"])
+M("C05-R2-numeric-no-left", "C05", [("src/expr.rs", "            Some(ref left) => Self::contains_numeric_field(left),\n            None => false,", "            Some(ref left) => left.field.as_ref().is_some_and(|f| f.is_numeric_field()),\n            None => false,")], ["key-typing_contains_numeric"])
 M("C05-R3-positional-off", "C05", [(P, "Ok(idx) => match idx.checked_sub(1).and_then(|i| fields.get(i)) {", "Ok(idx) => match idx.checked_sub(0).and_then(|i| fields.get(i)) {")], ["positional"])
 M("C05-R3-default-desc", "C05", [(P, "order_by_directions.push(true);", "order_by_directions.push(false);")], ["pairing"])
 M("C05-R3-desc-first", "C05", [(P, "match order_by_directions.last_mut() {", "match order_by_directions.first_mut() {")], ["parse_order_by_desc"])
